@@ -32,17 +32,17 @@ ASSUMPTIONS = [
 ]
 
 FLAGS = ['--canonicalize-roles', '--reify-edges', '--dereify-edges', '--reify-attributes', '--indicate-branches']
-REARR = [None, 'canonical', 'alphanumeric', 'attributes-first,alphanumeric', 'inverted-last', 'random']
+REARR = [None, 'canonical', 'alphanumeric', 'attributes-first,alphanumeric', 'inverted-last', 'inverted-last,alphanumeric', 'random']
 RECONF = [None, 'original', 'canonical', 'random']
 MKVARS = [None, '{prefix}{j}', 'v{i}']
-FORMATS = [[], ['--indent', 'no'], ['--indent', '0'], ['--indent', '3'], ['--compact'], ['--compact', '--indent', '3'], ['--triples'], ['--triples', '--indent', 'no'], ['--indent=-1', '--compact']]
+FORMATS = [[], ['--indent', 'no'], ['--indent', '0'], ['--indent', '3'], ['--compact'], ['--compact', '--indent', '3'], ['--triples'], ['--triples', '--indent', 'no'], ['--indent=-1', '--compact'], ['--indent', '0', '--compact']]
 MODELS = ['none', 'amr', 'noop', 'mini', 'minitop']
 
 STREAMS = [
     '# ::id 1 ::snt x y\n(a / alpha :ARG0~e.1 (b / beta) :polarity - :mod (c / gamma~2 :ARG0-of a))\n',
     '(a / A :consist-of-of (b / B))\n\n# ::k\n(x / X :mod-of (y / Y) :op2 2 :op10 10 :op1 1 :quant 7)\n',
     '(s / sell-01 :ARG0 (i / i) :ARG1 (b / book :ARG1-of (r / read :ARG0 i)))\n',
-    '(b / bark-01 :ARG0-of-of-of (d / dog) :domain-of 7 :mod-of-of-of (e / x))\n(a / x :ARG1-of (_ / have-mod-91 :ARG2 7) :accompanier (_2 / y))',
+    '(b / bark-01 :ARG0-of-of-of (d / dog) :domain-of 7 :mod-of-of-of-of-of (e / x) :ARG1-of-of-of-of-of-of (f / y))\n(a / x :ARG1-of (_ / have-mod-91 :ARG2 7) :accompanier (_2 / y))',
     '(a)\n\n\n# ::id 3\n(w / want-01 :polarity - :ARG0 (c / child) :ARG1 (g / go :ARG0 c) :time "a (b" )   (z / zed :wiki _)',
     '# ::snt x y\n(c / chapter :domain-of 7 :mod (d / x :poss-of c) :ARG2~e.3 "q"~e.4)',
 ]
@@ -65,7 +65,7 @@ def shards(tier, seed):
     sets = _optsets()
     streams = list(range(len(STREAMS)))
     models = MODELS
-    b = f'{len(sets)} normalisation option sets x 4 models x {len(streams)} streams x ' + ('one formatting option (rotating with the running index, offset VERIF_SEED)' if q else 'all 9 formatting options')
+    b = f'{len(sets)} normalisation option sets x 4 models x {len(streams)} streams x ' + ('one formatting option (rotating with the running index, offset VERIF_SEED)' if q else f'all {len(FORMATS)} formatting options')
     step = 12
     for m in models:
         for i in range(0, len(sets), step):
